@@ -638,6 +638,30 @@ def run(ctx):
                     witness = {"case": ln, "implementation": iv, "what": bad}
         ctx.cov["galois_cases"] = len(glines)
 
+        # ---- negMul (specification-level exact product, no Rust counterpart here): model vs schoolbook negacyclic convolution
+        r3 = ctx.rng.fork()
+        nm_lines, nm_expect = [], []
+        for _ in range(40 if quick else 400):
+            n = r3.choice([1, 2, 3, 4, 8, 16])
+            a = [r3.range(-(1 << 40), 1 << 40) for _ in range(n)]
+            b = [r3.range(-(1 << 40), 1 << 40) for _ in range(n)]
+            out = [0] * n
+            for i, x in enumerate(a):
+                for j, y in enumerate(b):
+                    if i + j < n:
+                        out[i + j] += x * y
+                    else:
+                        out[i + j - n] -= x * y
+            nm_lines.append(f"{len(nm_lines)} ring negmul n={n} rs=1 a={s_poly(a)} b={s_poly(b)}")
+            nm_expect.append(s_poly(out))
+        rc7, nm_model, _ = ctx.run_lines(drv, [], nm_lines)
+        for k, ln in enumerate(nm_lines):
+            mv, _ = first_tok(nm_model[k]) if k < len(nm_model) else ("?", [])
+            ctx.count_case(("negmul", ln.split()[3]))
+            if mv != nm_expect[k]:
+                ctx.disagreements += 1
+                broken.append(f"negMul model differs from negacyclic convolution: {ln[:200]} model={mv[:120]} want={nm_expect[k][:120]}")
+
     if broken:
         ctx.log("broken:", *broken[:6])
         if witness is not None:
